@@ -1,7 +1,7 @@
 """C10 - indexing and slicing follow Python semantics on every sequence kind.
 
 Correspondence: an exhaustive grid (kind x length x index/bounds x surface form) is run through
-the implementation (bin/prog) and through the extracted Coq model (Seq/Index.v); an independent
+the implementation (bin/prog) and through the extracted Coq model (Seq/Index.v, Seq/Accessors.v); an independent
 Python oracle (Python's own list indexing) decides, on a disagreement, whether the property
 itself fails on that input.
 """
@@ -13,11 +13,12 @@ MANIFEST = dict(
     technique="Coq proof (model = Python indexing spec, unbounded) + exhaustive-grid correspondence model/implementation/Python oracle",
     text="Machine-checked theorems (Coq 8.16, no axioms) that the Gallina transcription of pythonic_index/pythonic_slice, the Stream default "
          "methods, the accessors and the write-addressing helpers equals Python's indexing/slicing for every list length and every integer "
-         "index/bound, never panics, and that writes address the position reads do. The model is tied to /repo on every run by an exhaustive "
+         "index/bound, never panics, that writes address the position reads do, and that tail/butlast/take n/drop n/uncons/unsnoc/only (Seq/Accessors.v; lists and "
+         "finite streams) are the corresponding index and slice expressions for every machine-word count (23 theorems). The model is tied to /repo on every run by an exhaustive "
          "grid (8 kinds x len 0..5 x all small and extreme indices x every surface form) run through both and through an independent Python oracle.",
     note="Trusted: Coq kernel; hand-written model Seq/Index.v (tie to code is the correspondence run, i.e. differential testing on the grid); "
          "extraction+OCaml runner; Rust harness; Python oracle. Element reads of the per-kind wrappers (UTF-8 soft decoding, dict indexing) are compared "
-         "by correspondence only. uncons/unsnoc/only are checked against the Python oracle only.",
+         "by correspondence only. uncons/unsnoc on a multi-byte string (removed by character) are checked against the Python oracle only.",
     design="6-C10")
 I63 = 2 ** 63
 EXTREMES = [2 ** 31, -2 ** 31, I63 - 1, -(I63 - 1), -I63, I63, -I63 - 1, 2 ** 64, -2 ** 64, 10 ** 30]
@@ -173,7 +174,7 @@ def gen_cases(ctx):
                     ma = "_" if a is None else model_idx(a)
                     mb = "_" if b is None else model_idx(b)
                     cases.append(dict(kind=kind, n=n, op="slice", form=op, args=[a, b], src=src,
-                                      model=f"{'sslice' if st else 'slice'} {L} {ma} {mb}"))
+                                      model=f"{'s' if st else ''}{op} {L} {mi}"))
             # the same reads with the index / bounds held in big representation (x // 1, 2^64-2^64+x, x << 0)
             for bi, i in enumerate(j for j in idxs(L, small=True)):
                 Ib = render_idx_big(i, bi)
@@ -186,16 +187,22 @@ def gen_cases(ctx):
                 cases.append(dict(kind=kind, n=n, op="slice", form="expr-bigrep", args=[i, None], src=f"{X}[{Ib}:]",
                                   model=f"{'sslice' if st else 'slice'} {L} {mi} _"))
                 cases.append(dict(kind=kind, n=n, op="slice", form="take-bigrep", args=[None, i], src=f"{X} take {Ib}",
-                                  model=f"{'sslice' if st else 'slice'} {L} _ {mi}"))
+                                  model=f"{'stake' if st else 'take'} {L} {mi}"))
             for k, name in ((0, "first"), (1, "second"), (2, "third"), (-1, "last")):
                 cases.append(dict(kind=kind, n=n, op="index", form=name, args=[k], src=f"{name}({X})",
                                   model=f"{'sindex' if st else 'lin'} {L} {k}"))
             cases.append(dict(kind=kind, n=n, op="slice", form="tail", args=[1, None], src=f"tail({X})",
-                              model=f"{'sslice' if st else 'slice'} {L} 1 _"))
+                              model=f"{'stail' if st else 'tail'} {L}"))
             cases.append(dict(kind=kind, n=n, op="slice", form="butlast", args=[None, -1], src=f"butlast({X})",
-                              model=f"{'sslice' if st else 'slice'} {L} _ -1"))
-            for op in ("uncons", "unsnoc", "only"):
-                cases.append(dict(kind=kind, n=n, op=op, form=op, args=[], src=f"{op}({X})", model=None))
+                              model=f"{'sbutlast' if st else 'butlast'} {L}"))
+            for op in ("uncons", "unsnoc", "only", "unconsq", "unsnocq"):
+                # strings are unconsed by character, not by byte: the multi-byte string is judged by the oracle only
+                mop = None if kind == "mbstring" else ("s" + op if st and op in ("uncons", "unsnoc", "only") else op)
+                if st and op in ("unconsq", "unsnocq"):
+                    mop = None
+                fn = {"unconsq": "uncons?", "unsnocq": "unsnoc?"}.get(op, op)
+                cases.append(dict(kind=kind, n=n, op=op, form=op, args=[], src=f"{fn}({X})",
+                                  model=f"{mop} {L}" if mop else None))
             # slices: full small grid, plus extremes against a few partners
             small = [None] + list(range(-L - 3, L + 4))
             big = EXTREMES + ["f", "s"]
@@ -323,6 +330,18 @@ def expected_from_model(c, m):
     if op == "rmslice":
         m_, l = body.split(" ", 1)
         return "ok " + sub(kind, positions(l))
+    if op == "only":
+        return "ok " + elem(kind, int(body))
+    if op in ("uncons", "unconsq"):
+        if body == "null":
+            return "ok N"
+        a, l = body.split(" ", 1)
+        return "ok L[" + elem(kind, int(a)) + "," + sub(kind, positions(l), as_stream=kind in STREAMS) + "]"
+    if op in ("unsnoc", "unsnocq"):
+        if body == "null":
+            return "ok N"
+        l, a = body.rsplit(" ", 1)
+        return "ok L[" + sub(kind, positions(l)) + "," + elem(kind, int(a)) + "]"
     raise ValueError(op)
 
 
@@ -355,16 +374,16 @@ def oracle(c):
         if kind in STREAMS:
             return ("elems", [10 + p for p in r])
         return "ok " + sub(kind, r)
-    if op == "uncons":
+    if op in ("uncons", "unconsq"):
         if n == 0:
-            return "err"
-        if kind in STREAMS:
+            return "err" if op == "uncons" else "ok N"
+        if kind == "mbstring" and op == "unconsq":
             return "any"
-        return "ok L[" + elem(kind, 0) + "," + sub(kind, list(range(1, n))) + "]"
-    if op == "unsnoc":
+        return "ok L[" + elem(kind, 0) + "," + sub(kind, list(range(1, n)), as_stream=kind in STREAMS) + "]"
+    if op in ("unsnoc", "unsnocq"):
         if n == 0:
-            return "err"
-        if kind in STREAMS:
+            return "err" if op == "unsnoc" else "ok N"
+        if kind == "mbstring" and op == "unsnocq":
             return "any"
         return "ok L[" + sub(kind, list(range(0, n - 1))) + "," + elem(kind, n - 1) + "]"
     if op == "only":
